@@ -160,6 +160,18 @@ func (m *VM) step(i int, op *Op) *Rec {
 		priv := ed25519.NewKeyFromSeed(seed)
 		m.put(op.Out, &KeyObj{Pub: priv.Public().(ed25519.PublicKey), Priv: priv, Attacker: op.Has("attacker")})
 		return rec
+	case "keyrot":
+		// the verifier rotates a registered public key IN PLACE (same slice, new bytes): whatever
+		// was remembered about the old key must not survive
+		k, o := m.Key(op.A), m.Key(op.B)
+		if k == nil || o == nil {
+			skip("no key")
+			break
+		}
+		copy(k.Pub, o.Pub)
+		k.Rotated = true
+		m.FaultFired("key_rotated_in_place")
+		return rec
 	case "blob":
 		b, _ := hex.DecodeString(op.Data)
 		m.put(op.Out, &BlobObj{Data: b, Hostile: true, RootKey: op.A})
@@ -198,6 +210,7 @@ func (m *VM) step(i int, op *Op) *Rec {
 				*b.Rand = *NewSimRand(op.Ent)
 			}
 			m.CurRand = b.Rand
+			b.Rand.Begin()
 			tok, err := b.Bld.Build()
 			b.Builds++
 			rec.Err = errStr(err)
@@ -358,7 +371,15 @@ func (m *VM) step(i int, op *Op) *Rec {
 			break
 		}
 		body = func() {
-			tok, err := biscuit.Unmarshal(bl.Data)
+			// the receive buffer belongs to the caller, who re-uses it as soon as Unmarshal has
+			// returned: hand the library a private copy and overwrite it afterwards
+			buf := append(make([]byte, 0, len(bl.Data)+16), bl.Data...)
+			tok, err := biscuit.Unmarshal(buf)
+			for i := range buf {
+				buf[i] = ^buf[i]
+			}
+			buf = append(buf[:0], "reused receive buffer"...)
+			_ = buf
 			rec.Err = errStr(err)
 			rec.Class = okClass(err)
 			if tok != nil && err == nil {
